@@ -326,8 +326,14 @@ def run(chk, repo, tier):
     pen_tests = [n for n in cfg.nodes.values() if n.kind == 'test' and unparse(n.ast) == 'penalties'
                  and any(p.id in set(cfg.succ(n.id, ['true'])) for p in pens)]
     ref_pen = any(isinstance(n.ast, ast.AugAssign) and unparse(n.ast.target) == 'ref_value' for n in cfg.nodes.values())
-    if not cmps or not pens:
-        raise AnalysisError('N4: cut-off comparison / penalty addition not found in rank_models')
+    if not cmps:
+        raise AnalysisError('N4: cut-off comparison not found in rank_models')
+    if not pens and ref_pen:
+        chk.instance(N4, 'candidate rank values are never penalised although the reference is')
+        chk.violation(N4, tm.rel, 'rank_models', 'rank_value never penalised',
+                      'the reference value gets its penalty but the candidates do not', line=rk.node.lineno,
+                      witness='rank_models with penalties: deltas are off by the reference penalty, candidates pass the '
+                              'cut-off that they should fail')
     for c in cmps:
         ok = any(cfg.dominates(t.id, c.id) for t in pen_tests)
         chk.instance(N4, f'`{c.text()}` after the penalty step: {ok} (reference penalised: {ref_pen})')
